@@ -1,1 +1,151 @@
-fn main(){}
+mod build;
+mod obs;
+mod val;
+
+use obs::*;
+use serde_json::{json, Value as J};
+use std::collections::HashMap;
+use std::io::{BufRead, BufReader, BufWriter, Write};
+
+fn arg_val(args: &[String], k: &str) -> Option<String> {
+    args.iter().position(|a| a == k).and_then(|i| args.get(i + 1).cloned())
+}
+
+pub fn load_defs(path: &str) -> HashMap<String, J> {
+    let f = std::fs::File::open(path).unwrap_or_else(|e| panic!("open {}: {}", path, e));
+    let mut m = HashMap::new();
+    for l in BufReader::new(f).lines() {
+        let l = l.unwrap();
+        if l.trim().is_empty() {
+            continue;
+        }
+        let d: J = serde_json::from_str(&l).expect("def json");
+        m.insert(d["id"].as_str().expect("def id").to_string(), d);
+    }
+    m
+}
+
+pub struct Cache {
+    defs: HashMap<String, J>,
+    built: HashMap<String, Result<Built, String>>,
+}
+impl Cache {
+    pub fn new(defs: HashMap<String, J>) -> Self {
+        Cache {
+            defs,
+            built: HashMap::new(),
+        }
+    }
+    pub fn get(&mut self, case: &J) -> (&Result<Built, String>, String) {
+        let (key, def) = match &case["def"] {
+            J::String(id) => (
+                id.clone(),
+                self.defs
+                    .get(id)
+                    .unwrap_or_else(|| panic!("unknown def {}", id))
+                    .clone(),
+            ),
+            d @ J::Object(_) => (d.to_string(), d.clone()),
+            _ => panic!("case without def"),
+        };
+        if !self.built.contains_key(&key) {
+            self.built.insert(key.clone(), build(&def));
+        }
+        (self.built.get(&key).unwrap(), key)
+    }
+}
+
+/// replay specification-generated (or driver-generated) cases into the real parser
+fn cmd_replay(args: &[String]) -> i32 {
+    let defs = arg_val(args, "--defs").map(|p| load_defs(&p)).unwrap_or_default();
+    let cases = arg_val(args, "--cases").expect("--cases");
+    let out = arg_val(args, "--out").expect("--out");
+    let dump = arg_val(args, "--dump-obs");
+    let mut cache = Cache::new(defs);
+    let mut mm = BufWriter::new(std::fs::File::create(&out).unwrap());
+    let mut dumpw = dump.map(|p| BufWriter::new(std::fs::File::create(p).unwrap()));
+    let rd: Box<dyn BufRead> = if cases == "-" {
+        Box::new(BufReader::new(std::io::stdin()))
+    } else {
+        Box::new(BufReader::new(std::fs::File::open(&cases).unwrap()))
+    };
+    let (mut n, mut bad) = (0u64, 0u64);
+    let mut classes: HashMap<String, u64> = HashMap::new();
+    for l in rd.lines() {
+        let l = l.unwrap();
+        if l.trim().is_empty() {
+            continue;
+        }
+        let case: J = serde_json::from_str(&l).expect("case json");
+        let argv = if case.get("argv").is_some() {
+            concretize(&case["argv"])
+        } else {
+            concretize(&case["line"])
+        };
+        let _env = EnvGuard::apply(case.get("env"));
+        let (b, _) = cache.get(&case);
+        let b = match b {
+            Ok(b) => b,
+            Err(e) => {
+                writeln!(mm, "{}", json!({"case":case,"build_panic":e})).unwrap();
+                bad += 1;
+                continue;
+            }
+        };
+        let comp = case.get("comp").and_then(J::as_u64).map(|c| c as usize);
+        let o = run(
+            b,
+            &argv,
+            &RunOpts {
+                name: Some(APP),
+                comp,
+            },
+        );
+        let got = project(&b.def, &o);
+        n += 1;
+        *classes.entry(o.class.to_string()).or_default() += 1;
+        let ok = match case.get("expect") {
+            Some(e) => conforms(e, &got),
+            None => true,
+        };
+        if let Some(w) = dumpw.as_mut() {
+            let mut c = case.clone();
+            c["argv_bytes"] = argv_json(&argv);
+            c["got"] = got.clone();
+            if o.class == "stdout" {
+                c["got"]["text"] = J::String(o.text.clone());
+            }
+            writeln!(w, "{}", c).unwrap();
+        }
+        if !ok {
+            bad += 1;
+            let mut c = case.clone();
+            c["def_full"] = b.def.clone();
+            c["argv_bytes"] = argv_json(&argv);
+            c["got"] = got;
+            if o.class == "stdout" {
+                c["got"]["text"] = J::String(o.text.clone());
+            }
+            writeln!(mm, "{}", c).unwrap();
+        }
+    }
+    mm.flush().unwrap();
+    if let Some(w) = dumpw.as_mut() {
+        w.flush().unwrap();
+    }
+    println!("{}", json!({"cases":n,"mismatches":bad,"classes":classes}));
+    0
+}
+
+fn main() {
+    std::panic::set_hook(Box::new(|_| {}));
+    let args: Vec<String> = std::env::args().collect();
+    let code = match args.get(1).map(|s| s.as_str()) {
+        Some("replay") => cmd_replay(&args[2..]),
+        _ => {
+            eprintln!("usage: harness replay --defs F --cases F --out F [--dump-obs F]");
+            2
+        }
+    };
+    std::process::exit(code);
+}
